@@ -6,7 +6,9 @@ THEOREMS = ['Tbox.C15.C15_terminates', 'Tbox.C15.C15_terminates_bound', 'Tbox.C1
             'Tbox.C15.C15_no_uninit_no_oob', 'Tbox.C15.C15_only_encoded', 'Tbox.C15.C15_only_encoded_callbacks',
             'Tbox.C15.C15_unknown_ignored',
             'Tbox.C15.C15_callback_at_most_once', 'Tbox.C15.C15_cancelled_never_called',
-            'Tbox.C15.C15_callback_once_partial', 'Tbox.C15.runH_run', 'Tbox.C15.C15_callback_once_counterexample',
+            'Tbox.C15.C15_no_callback_once_dead', 'Tbox.C15.C15_called_log', 'Tbox.C15.C15_callback_once_partial',
+            'Tbox.C15.C15_outstanding_at_most_5_ticks', 'Tbox.C15.C15_timer_armed_while_outstanding',
+            'Tbox.C15.C15_timeout_early_counterexample', 'Tbox.C15.C15_callback_once_counterexample',
             'Tbox.C15.C15_orig_terminates_counterexample', 'Tbox.C15.C15_orig_uninit_counterexample_short',
             'Tbox.C15.C15_orig_uninit_counterexample_label', 'Tbox.C15.C15_orig_only_encoded_counterexample']
 import vlib
@@ -24,11 +26,11 @@ TRUSTED = ['model lean/TboxModel/C15/{Deserializer,Model}.lean is hand-written f
            'harness/vtime.h virtual clock (libc interposition) and harness/loopdrv.h; the loop, TimerEvent and UdpSocket are the real ones',
            'uninitialised reads are expressed in the model as reads of an unset destination; on the implementation side only '
            'ASan/UBSan observe memory errors (an uninitialised read that does not change an observable is not seen at run time)']
-ASSUMPTIONS = ['no datagram arrives on the real UDP socket during a run (queries go to 127.0.0.1-3:53, nothing listens)',
-               'callbacks do not call back into the DnsRequest object (re-entrant cancel/request from a callback is outside the statement)',
+ASSUMPTIONS = ['a callback does not cancel its OWN lookup (DnsRequest erases the std::function while it is executing: heap-use-after-free as soon as the callback touches a capture afterwards — reproduced with VERIF_C15_PROBE_SELFCANCEL=1, patches/C15-03 / proposed known finding); every other re-entrant call (request, cancel of another lookup) from reply, error and timeout callbacks is generated',
+               'no datagram arrives on the real UDP socket during a run (queries go to 127.0.0.1-3:53, nothing listens)',
                'fewer than 65 535 lookups are started within five ticks of any lookup (16-bit wire id; C15_callback_once_partial says what happens otherwise)',
                'the clock advances in whole seconds between operations (one timer firing per tick)']
-RULE = ('op sequences (servers/lookup/cancel/running/recv/tick) from props/C15/plugin.py: replies built from a structured DNS '
+RULE = ('op sequences (servers/defscript/lookup/cancel/running/recv/tick; a lookup\'s callback is a script of API calls — new lookups with their own scripts, cancels of other lookups — executed inside the reply/error/all-servers-failed/timeout callback) from props/C15/plugin.py: replies built from a structured DNS '
         'encoder (A/CNAME/other records, compression pointers, chains of 1..18 pointers) then mutated (truncation at every '
         'offset, inflated counts, self/looping/out-of-range pointers, NUL and long labels, wrong rdlength, rcodes, QR bit, '
         'foreign ids, bit flips) plus a random-bytes stream; non-trivial = at least one callback ran and at least one datagram '
@@ -169,7 +171,7 @@ def mutate(rng, r):
             return bytes(d)
     if k < 0.66:      # a label length that runs out of the packet / reserved length bits
         o = rng.randrange(12, len(d))
-        d[o] = rng.choice([0x3F, 0x40, 0x7F, 0x80, 0xBF, 0xC0, 0xFF, len(d) - o, len(d) - o - 1])
+        d[o] = rng.choice([0x3F, 0x40, 0x7F, 0x80, 0xBF, 0xC0, 0xFF, len(d) - o, len(d) - o - 1]) & 255
         return bytes(d)
     if k < 0.74:      # wrong rdlength on a record
         r.records = list(r.records)
@@ -190,18 +192,47 @@ def mutate(rng, r):
 def hx(b): return b.hex() if b else '-'
 
 
-def gen_case(rng, hostile):
+import os
+PROBE_SELF_CANCEL = os.environ.get('VERIF_C15_PROBE_SELFCANCEL', '') == '1'
+
+
+def gen_scripts(rng, alloc_lb, nscripts_before):
+    """defscript lines. A `C<t>` target is an id <= alloc_lb: every lookup that can carry the script is issued later and
+    has a larger id, so a callback never cancels its OWN lookup (excluded: see ASSUMPTIONS / known finding)."""
+    out = []
+    k = rng.choice([1, 1, 2, 3])
+    total = nscripts_before + k
+    for j in range(k):
+        acts = []
+        for _ in range(rng.choice([0, 1, 1, 1, 2, 3])):
+            r = rng.random()
+            if r < 0.6: acts.append('L%d' % rng.choice(list(range(total)) + [nscripts_before + j, 63]))
+            elif alloc_lb >= 1: acts.append('C%d' % rng.randrange(1, alloc_lb + 1))
+            else: acts.append('C%d' % rng.choice([0, 65535]))
+        out.append('defscript ' + (','.join(acts) or '-'))
+    return out
+
+
+def gen_case(rng, hostile, scripted=False):
     ops = []
     nserv = rng.choice([1, 1, 2, 3, 3])
     if nserv != 1 or rng.random() < 0.2: ops.append('servers %d' % nserv)
-    alloc = 0
+    alloc = 0          # lower bound of req_id_alloc_ (script-issued lookups push the real one higher)
+    nscripts = 0
     issued = []
+
+    def lookup_op():
+        if scripted and nscripts and rng.random() < 0.8: return 'lookup %d' % rng.randrange(nscripts)
+        return 'lookup'
     for _ in range(rng.choice([1, 1, 2, 3, 4])):
-        ops.append('lookup'); alloc += 1; issued.append(alloc)
+        if scripted and rng.random() < 0.5:
+            sc = gen_scripts(rng, alloc, nscripts); ops += sc; nscripts += len(sc)
+        ops.append(lookup_op()); alloc += 1; issued.append(alloc)
     for _ in range(rng.choice([2, 4, 8, 14])):
         k = rng.random()
-        rid = rng.choice(issued) if rng.random() < 0.9 else rng.choice([0, alloc + 1, 65535, rng.randrange(65536)])
-        if k < 0.55:
+        pool = issued + ([alloc + 1, alloc + 2, alloc + 3] if scripted else [])
+        rid = rng.choice(pool) if rng.random() < 0.9 else rng.choice([0, alloc + 1, 65535, rng.randrange(65536)])
+        if k < (0.35 if scripted else 0.55):
             r = rand_reply(rng, rid)
             h = rng.random()
             if hostile and h < 0.12:
@@ -213,7 +244,7 @@ def gen_case(rng, hostile):
             elif hostile and h < 0.85:
                 d = mutate(rng, r)
             else:
-                if rng.random() < 0.15: r.flags = rng.choice([0x8182, 0x8183, 0x8185, 0x8181])
+                if rng.random() < (0.4 if scripted else 0.15): r.flags = rng.choice([0x8182, 0x8183, 0x8185, 0x8181])
                 d = r.build()
             ops.append('recv ' + hx(d))
         elif k < 0.63:
@@ -221,18 +252,20 @@ def gen_case(rng, hostile):
         elif k < 0.70:
             ops.append('running %d' % rid)
         elif k < 0.78 and nserv > 0:
-            ops.append('lookup'); alloc += 1; issued.append(alloc)
+            if scripted and rng.random() < 0.3:
+                sc = gen_scripts(rng, alloc, nscripts); ops += sc; nscripts += len(sc)
+            ops.append(lookup_op()); alloc += 1; issued.append(alloc)
         elif k < 0.81:
             ns = rng.choice([0, 1, 2, 3]); ops.append('servers %d' % ns)
             if ns == 0 and rng.random() < 0.7:
-                ops.append('lookup'); ops.append('servers %d' % nserv)     # a refused lookup
+                ops.append(lookup_op()); ops.append('servers %d' % nserv)     # a refused lookup
             else: nserv = ns
         else:
-            ops.append('tick')
-    # drain: every lookup completes by its fifth tick
+            ops += ['tick'] * (rng.choice([1, 1, 2, 5]) if scripted else 1)
+    # drain: every lookup completes by its fifth tick (retries issued from timeout callbacks by their own fifth tick)
     for i in issued: ops.append('running %d' % i)
-    ops += ['tick'] * rng.choice([5, 5, 6])
-    for i in issued: ops.append('running %d' % i)
+    ops += ['tick'] * (rng.choice([5, 6, 10, 11, 16]) if scripted else rng.choice([5, 5, 6]))
+    for i in range(1, alloc + (6 if scripted else 1)): ops.append('running %d' % i)
     return ops
 
 
@@ -243,7 +276,8 @@ def directed():
     cn_rec = ptr(12) + u16(5) + u16(1) + u32(60) + u16(6) + b'\x03cdn' + ptr(16)
     good = hdr(1, 0x8180, 1, 2) + q + cn_rec + a_rec
     # malformed op lines: both sides must say bad-op
-    yield ['lookup', 'recv 0g', 'recv', 'cancel x', 'cancel 65536', 'servers 4', 'frob', 'tick 1', 'running']
+    yield ['lookup', 'recv 0g', 'recv', 'cancel x', 'cancel 65536', 'servers 4', 'frob', 'tick 1', 'running',
+           'defscript', 'defscript L64', 'defscript C65536', 'defscript L1,', 'defscript X', 'lookup 64', 'lookup x', 'touch maybe', 'defscript S,L0,C7']
     # the well-formed reply, a duplicate, a late reply, then the ring drains
     yield ['lookup', 'recv ' + hx(good), 'recv ' + hx(good), 'running 1'] + ['tick'] * 6
     # every truncation offset of the well-formed reply, then the intact one
@@ -270,6 +304,21 @@ def directed():
     yield ['lookup', 'tick', 'lookup', 'tick', 'tick', 'cancel 1', 'tick', 'tick', 'running 2', 'tick', 'running 2', 'tick', 'tick']
     yield ['lookup', 'cancel 1', 'recv ' + hx(good), 'cancel 1', 'lookup', 'recv ' + hx(u16(2) + good[2:]), 'recv ' + hx(good)] + ['tick'] * 6
     yield ['servers 0', 'lookup', 'running 0', 'recv ' + hx(u16(0) + good[2:]), 'tick', 'servers 1', 'lookup', 'recv ' + hx(good)] + ['tick'] * 6
+    # callbacks that call back into the client: retry from a timeout callback (the retry must time out five ticks later),
+    # from an all-servers-failed callback, from a reply callback; cancel of another lookup from a callback
+    yield ['defscript L1', 'defscript -', 'lookup 0'] + ['tick'] * 5 + ['running 1', 'running 2'] + ['tick'] * 4 + ['running 2', 'tick', 'running 2', 'tick']
+    yield ['defscript L0', 'lookup 0'] + ['tick'] * 16 + ['running 1', 'running 2', 'running 3', 'running 4', 'cancel 4'] + ['tick'] * 6
+    yield ['defscript L0,L0', 'lookup 0', 'tick', 'tick', 'lookup 0'] + ['tick'] * 3 + ['running 3', 'running 4'] + ['tick'] * 5 + ['running 3', 'running 5']
+    yield ['servers 2', 'defscript L1', 'defscript C1,L2', 'defscript -', 'lookup 0', 'lookup 1', 'recv ' + hx(sf(1, 2)), 'recv ' + hx(sf(1, 2)),
+           'running 3', 'recv ' + hx(sf(2, 3)), 'running 3', 'running 4'] + ['tick'] * 6 + ['running 3', 'running 4']
+    yield ['defscript L0', 'lookup', 'lookup 0', 'defscript C1,L63', 'lookup 1', 'recv ' + hx(u16(3) + good[2:]), 'running 1', 'running 4',
+           'recv ' + hx(u16(2) + good[2:])] + ['tick'] * 5 + ['running 4', 'running 5'] + ['tick'] * 6
+    yield ['lookup 0', 'defscript L1', 'lookup 0', 'defscript -', 'lookup 0'] + ['tick'] * 11 + ['running 4', 'running 5']   # scripts are bound when the lookup is issued
+    yield ['servers 0', 'defscript L0', 'servers 1', 'lookup 0', 'servers 0'] + ['tick'] * 5 + ['servers 1'] + ['tick'] * 6   # the retry is refused
+    if PROBE_SELF_CANCEL:
+        # KNOWN FINDING probe: a callback that cancels its own lookup and then uses its captures (heap-use-after-free)
+        yield ['touch on', 'defscript S', 'lookup 0', 'recv ' + hx(sf(1, 3)), 'running 1']
+        yield ['defscript S,L1', 'defscript -', 'lookup 0'] + ['tick'] * 5 + ['running 1', 'running 2'] + ['tick'] * 5
     # hop limit boundary: chains of 15..18 pointers
     import random
     r0 = random.Random(15)
@@ -283,6 +332,8 @@ def gen(rng, tier):
     n = 500 if tier == 'quick' else 6000
     for i in range(n):
         yield gen_case(rng, hostile=(i % 4 != 0))
+    for i in range(n):
+        yield gen_case(rng, hostile=(i % 3 == 0), scripted=True)
     if tier == 'thorough':
         # every truncation offset and every single-byte overwrite (a few values) of two structured replies
         for _ in range(2):
@@ -320,10 +371,10 @@ def fingerprint(ops, d):
 LEVEL_TEXT = ('Lean 4 theorems over a hand-written model of the DNS client: name decoding needs fuel <= 17*(len+2) (hop limit), '
               'no parse outcome reads an unset destination and every dereferenced byte range lies inside the datagram, every reported '
               'address/name is decoded from in-bounds bytes of completely present records, each lookup\'s callback runs at most once, '
-              'never after a cancel, and (no 16-bit id handed out while still outstanding) no lookup is ever lost; '
+              'never once cancelled/completed, no lookup is outstanding for five ticks (ring invariant, adds made during a tick included), and (no 16-bit id handed out while still outstanding or in the ring) no lookup is ever lost — all for executions whose callbacks issue and cancel lookups; '
               'counterexample theorems for the unpatched parser; the model is tied to the code on every run by differential execution '
               '(ASan+UBSan build of the working tree, virtual clock)')
 LEVEL_NOTE = ('trusted: Lean kernel, hand-written model + differential tie (coverage bounded by the generator, measured in evidence); '
-              'the no-lookup-lost part of callback-once is proved under a decidable no-id-reuse hypothesis (16-bit wire id); the five-tick bound on how long a lookup stays outstanding is tied by the differential runs only')
+              'the no-lookup-lost part of callback-once is proved under a decidable no-id-reuse hypothesis (16-bit wire id); "a timeout never comes before the fifth tick" is false under id wrap (counterexample theorem) and tied by the differential runs only')
 TECHNIQUE = 'Lean 4 invariant proofs (parser Hoare logic with explicit fuel, pending-map/timeout-ring invariant) + model/implementation correspondence check'
 DESIGN_REF = 'DESIGN.md §6 C15, §7 row 12'
